@@ -28,9 +28,15 @@ _MECARD_ESCAPE = {
 }
 
 
+_VCARD_NEWLINE_ESCAPE = {
+    ord('\n'): '\\n',
+    ord('\r'): None,
+}
+
 _VCARD_ESCAPE = {
     ord(','): '\\,',
     ord(';'): '\\;',
+    **_VCARD_NEWLINE_ESCAPE,
 }
 
 
@@ -301,7 +307,7 @@ def make_vcard_data(name, displayname, email=None, phone=None, fax=None,
 
     escape = _escape_vcard
     data = ['BEGIN:VCARD', 'VERSION:3.0',
-            f'N:{name}',
+            f'N:{str(name).translate(_VCARD_NEWLINE_ESCAPE)}',
             f'FN:{escape(displayname)}']
     if org:
         data.append(f'ORG:{escape(org)}')
